@@ -81,6 +81,10 @@ class World:
     pass
 
 
+class Waypoint(Envs.PositionComponent):
+    """A user component derived from PositionComponent: a place the agent is heading for, not where it is."""
+
+
 class Bag(Core.Agent):
     """An agent class with its own notion of length (number of carried items): always 0 here."""
 
@@ -99,6 +103,12 @@ def make_agent(key, model):
         Homed = type('Homed', (Core.Agent,), {})
         Homed.add_class_component(PC(Homed, model, 1, 1, 1))
         return Homed('h', model)
+    if key == 'i':
+        return Core.Agent(7, model)          # an agent numbered rather than named
+    if key == 'y':
+        a = Core.Agent('y', model)           # carries a waypoint (a component DERIVED from PositionComponent) before it
+        a.add_component(Waypoint(a, model, 40, 40, 40))      # is placed: not its position, and far outside any world
+        return a
     return Core.Agent(key, model)
 
 
@@ -219,6 +229,17 @@ class Harness:
     def _call_args(self, p):
         return [num(v) for v in p[:self.nargs]]
 
+    @staticmethod
+    def _styled(fn, agent, args, names):
+        """The same call written three ways - positional, by keyword, first coordinate positional and the rest by
+        keyword - chosen by the arguments themselves (so every style meets every kind of target)."""
+        style = int(sum(abs(2 * float(v)) for v in args)) % 3 if all(v == v for v in args) else 0
+        if style == 0 or not args:
+            return fn(agent, *args)
+        if style == 1:
+            return fn(agent, **dict(zip(names, args)))
+        return fn(agent, args[0], **dict(zip(names[1:], args[1:])))
+
     def _read(self, w, k):
         a = w.agents[k]
         if PC not in a:
@@ -241,7 +262,7 @@ class Harness:
                 if kind == 'add0':
                     w.env.add_agent(a)
                 else:
-                    w.env.add_agent(a, *self._call_args(p))
+                    self._styled(w.env.add_agent, a, self._call_args(p), ('x_pos', 'y_pos', 'z_pos'))
                 raised = None
             except Exception as e:
                 raised = e
@@ -256,7 +277,7 @@ class Harness:
                                     observed=self._read(w, k))
                 if isinstance(raised, (Core.DuplicateAgentError, TypeError, AttributeError, KeyError)):
                     raise Violation(f'placement at {p} outside the world raised {type(raised).__name__}')
-                if self._read(w, k) is not None or w.env.get_agent(k) is not None:
+                if self._read(w, k) is not None or w.env.get_agent(a.id) is not None:
                     raise Violation(f'rejected placement at {p} left the agent resident or positioned')
             w.last = (kind, ok, w.pos[k])
         elif kind == 'move':
@@ -272,7 +293,7 @@ class Harness:
                         new.append(min(max(old[ax] + Fr(d[ax]), Fr(0)), Fr(E) - self.off))
                 else:
                     new.append(None)     # nothing is claimed about zero-extent axes
-            w.env.move(a, *[num(v) for v in d])
+            self._styled(w.env.move, a, [num(v) for v in d], ('x', 'y', 'z'))
             got = self._read(w, k)
             for ax in range(3):
                 if new[ax] is None:
@@ -284,7 +305,7 @@ class Harness:
             p = op[2]
             ok = self._in_range(p)
             try:
-                w.env.move_to(a, *self._call_args(p))
+                self._styled(w.env.move_to, a, self._call_args(p), ('x', 'y', 'z'))
                 raised = None
             except IndexError as e:
                 raised = e
@@ -321,12 +342,12 @@ class Harness:
             try:
                 w.env.remove_agent(a)
             except Exception:      # noqa
-                if self._read(w, k) != before or w.env.get_agent(k) is not a:
+                if self._read(w, k) != before or w.env.get_agent(a.id) is not a:
                     raise Violation(f'remove_agent(<agent object {k}>) was refused but left a trace',
                                     expected=before, observed=self._read(w, k))
                 w.last = (kind, False, None)
             else:
-                gone, bare = w.env.get_agent(k) is None, PC not in a
+                gone, bare = w.env.get_agent(a.id) is None, PC not in a
                 if gone != bare:
                     raise Violation(f'remove_agent(<agent object {k}>): agent {"left" if gone else "stayed in"} the '
                                     f'world but {"lost" if bare else "kept"} its position', observed=self._read(w, k))
@@ -336,11 +357,11 @@ class Harness:
                     raise Violation(f'remove_agent(<agent object {k}>) kept the agent but moved it')
                 w.last = (kind, True, gone)
         elif kind == 'remove':
-            w.env.remove_agent(k)
+            w.env.remove_agent(a.id)
             w.pos[k] = None
             if PC in a:
                 raise Violation('agent still carries a position after leaving the world')
-            if w.env.get_agent(k) is not None:
+            if w.env.get_agent(a.id) is not None:
                 raise Violation('agent still resident after remove_agent')
             w.last = (kind, True, None)
         else:
@@ -366,7 +387,7 @@ class Harness:
 
     def check(self, w):
         for k in self.agents:
-            res = w.env.get_agent(k) is not None
+            res = w.env.get_agent(w.agents[k].id) is not None
             if res != (w.pos[k] is not None):
                 raise Violation(f'residency of {k} differs from the reference')
             if res:
@@ -476,7 +497,7 @@ def run(ctx):
     items += [(c, 3 if ctx.tier == 'quick' else 4) for c in two_agent_configs(ctx.tier)]
     items += [(c, 60) for c in odd_flag_configs()]
     # unusual agents: a nested environment, an agent class with its own __len__, a class-level position component
-    for key in ('e', 'g', 'h'):
+    for key in ('e', 'g', 'h', 'i', 'y'):
         for wrap in (False, True):
             items += [(('grid', [3, 2], wrap, [key], True, 1), 60), (('space', [1.5, 1, 0], wrap, [key], True, 0.5), 60),
                       (('discrete', [3, 0, 3], wrap, [key], True, 1), 60)]
